@@ -159,13 +159,17 @@ def run(tier, rng, C):
     import math as _m
     for kind, lo in (("CSRF", 2), ("PKCERAND", 32)):
         for n in range(max(lo, 2), 97, 1):
-            toks = [o.split(" ")[1] for o in C.run_impl(["%s %d" % (kind, n) for _ in range(12)]) if o.startswith("ok ")]
+            toks = [o.split(" ")[1] for o in C.run_impl(["%s %d" % (kind, n) for _ in range(24)]) if o.startswith("ok ")]
             raws = [dec(C.untb(t).decode()) for t in toks]
-            eq = sum(1 for r in raws for i in range(len(r) - 1) if r[i] == r[i + 1])
-            pairs = sum(max(0, len(r) - 1) for r in raws)
-            mean = pairs / 256.0
-            if eq > mean + 8 * _m.sqrt(mean) + 4:
-                fails.append("%s n=%d: %d of %d neighbouring byte pairs inside single values are equal (expected about %.1f)" % (kind.lower(), n, eq, pairs, mean))
+            # bytes at every distance 1..32 inside one value (a tail copied from an earlier word shows at
+            # distance 8, a repeated fill byte at distance 1)
+            for lag in range(1, min(33, n)):
+                eq = sum(1 for r in raws for i in range(len(r) - lag) if r[i] == r[i + lag])
+                pairs = sum(max(0, len(r) - lag) for r in raws)
+                mean = pairs / 256.0
+                if eq > mean + 8 * _m.sqrt(mean) + 5:
+                    fails.append("%s n=%d: %d of %d byte pairs at distance %d inside single values are equal (expected about %.1f)" % (kind.lower(), n, eq, pairs, lag, mean))
+                    break
     # supporting statistics
     total = 200000 if tier == "quick" else 4000000
     threads = 8 if tier == "quick" else 16
